@@ -34,7 +34,7 @@ def ensure_build():
         h = hashlib.sha1()
         for root in ("coq", "ocaml"):
             for d, dirs, files in sorted(os.walk(os.path.join(VERIF, root))):
-                dirs[:] = sorted(x for x in dirs if x not in ("gen",))
+                dirs[:] = sorted(x for x in dirs if x not in ("gen", "Gen"))
                 for f in sorted(files):
                     if f.endswith(".v") or f == "_CoqProject" or f == "modelrun.ml":
                         h.update(f.encode()); h.update(open(os.path.join(d, f), "rb").read())
@@ -121,6 +121,7 @@ def main():
     violations_out = []   # (replay_path, suffix)
     known_lines = []
     notes = []
+    gen_info = {}
 
     ok_build, blog = ensure_build()
     props = {"theorems": [], "assumptions": {}, "ok": False, "log": blog, "refuted": [], "partial": []}
@@ -131,6 +132,12 @@ def main():
             mod0 = importlib.import_module(pid.lower())
             if hasattr(mod0, "pre_props"):
                 okg, msg = mod0.pre_props()
+                if not okg:
+                    notes.append("translator/Gen: " + msg)
+            import gen
+            if pid in gen.PY2COQ_PIDS:
+                okg, msg, ginfo = gen.regen_py2coq()
+                gen_info.update(ginfo)
                 if not okg:
                     notes.append("translator/Gen: " + msg)
         except Exception:
@@ -211,6 +218,9 @@ def main():
     }
     if "coqchk_tail" in props:
         cov["coqchk"] = props["coqchk_tail"]
+    if gen_info:
+        cov["translated_from_source"] = dict(gen_info, translator="translate/py2coq.py -> coq/Gen/PyGen.v; Gen = Model lemmas in coq/Equiv/Equiv.v re-checked")
+        cov["trusted_base"] = TRUSTED_BASE + ["translate/py2coq.py (Python-ast to Gallina translator for the functions named in coq/Equiv/Equiv.v; fail-closed outside its subset)"]
     if res is not None:
         cov.update({
             "evaluations": res.evaluations, "distinct_nontrivial": len(res.nontrivial), "rule": res.rule,
